@@ -139,6 +139,18 @@ pub fn gen_plan(rng: &mut Rng, thorough: bool) -> FramePlan {
     FramePlan { knobs, streams }
 }
 
+fn shorten(s: &str) -> String {
+    if s.len() > 300 {
+        let mut e = 300;
+        while !s.is_char_boundary(e) {
+            e -= 1;
+        }
+        format!("{}…", &s[..e])
+    } else {
+        s.to_owned()
+    }
+}
+
 async fn one_stream(i: usize, sp: StreamPlan) -> Vec<(String, String, String)> {
     let mut bad = vec![];
     let path = crate::harness::run_dir().join(format!("frame{i}.sock"));
@@ -159,12 +171,17 @@ async fn one_stream(i: usize, sp: StreamPlan) -> Vec<(String, String, String)> {
     let mut typed_s: Vec<ServerMessage> = vec![];
     for m in &sp.msgs {
         if client_kind {
-            match serde_json::from_value::<ClientMessage>(m.clone()) {
+            // every generated document is a well-formed message of the protocol by construction:
+            // the decoder under test refusing one is a finding, not a reason to skip it
+            match serde_json::from_str::<ClientMessage>(&m.to_string()) {
                 Ok(t) => typed_c.push(t),
-                Err(_) => {}
+                Err(e) => bad.push(("C14".into(), "a well-formed message is rejected by the decoder".into(), format!("client message {} is rejected by the decoder: {e}", shorten(&m.to_string())))),
             }
-        } else if let Ok(t) = serde_json::from_value::<ServerMessage>(m.clone()) {
-            typed_s.push(t);
+        } else {
+            match serde_json::from_str::<ServerMessage>(&m.to_string()) {
+                Ok(t) => typed_s.push(t),
+                Err(e) => bad.push(("C14".into(), "a well-formed message is rejected by the decoder".into(), format!("server message {} is rejected by the decoder: {e}", shorten(&m.to_string())))),
+            }
         }
     }
     let n_msgs = if client_kind { typed_c.len() } else { typed_s.len() };
